@@ -329,6 +329,7 @@ const (
 	vfC13SigRoleClip         = "role-reassignment-clips-access-period"
 	vfC13SigRecreatedHistory = "recreated-role-forgets-channel-history"
 	vfC13SigRegainNoHistory  = "lost-and-regained-before-reload-leaves-no-history"
+	vfC13SigStampShortens    = "grant-source-switch-shortens-access-period"
 )
 
 // vfC13ShapeBackfillHides: the replica holds a document the user will not see any more; the
@@ -461,6 +462,58 @@ func vfC13ShapeRoleClip(post *vfC13Model, held map[string]string, pos, firstAcce
 				if entry > pos {
 					return vfC13SigRoleClip, fmt.Sprintf("%s has an entry in %s at %d > position %d; role %s conferred %s until after %d, assigned since %d but stamped %d", id, x, entry, pos, rn, x, role.Had[x], post.MemStart[vfC13Client][rn], stamp)
 				}
+			}
+		}
+	}
+	return "", ""
+}
+
+// vfC13ShapeStampShortens: the user is without channel X now; a held, no longer visible document sat
+// in X during an access period that ended after the replica's position, but not during the part of
+// it that begins at the channel's grant sequence as it stood when the period ended. The grant
+// sequence of a channel is that of its earliest source still present, so it moves forward when an
+// older source goes away while a newer one remains; the period is recorded from that later sequence
+// and the document's time in the channel falls outside it.
+func vfC13ShapeStampShortens(post *vfC13Model, held map[string]string, pos uint64) (sig, detail string) {
+	eff := post.Effective(vfC13Client)
+	for _, id := range vfSortedKeys(held) {
+		if post.Visible(vfC13Client, id) {
+			continue
+		}
+		d := post.Docs[id]
+		if d == nil {
+			continue
+		}
+		for _, x := range vfSortedKeys(d.Hist) {
+			if _, has := eff[x]; has {
+				continue
+			}
+			overlaps := func(p vfC13Span) bool {
+				for _, h := range d.Hist[x] {
+					if vfC13SpansOverlap(p, h) {
+						return true
+					}
+				}
+				return false
+			}
+			real, recorded := false, false
+			for _, p := range post.Periods[vfC13Client][x] {
+				if p.End == 0 || p.End <= pos {
+					continue
+				}
+				if overlaps(p) {
+					real = true
+				}
+				rp := p
+				if rp.Stamp > rp.Start {
+					rp.Start = rp.Stamp
+				}
+				if overlaps(rp) {
+					recorded = true
+				}
+			}
+			if real && !recorded {
+				return vfC13SigStampShortens, fmt.Sprintf("%s sat in %s during an access period that is recorded from a later grant sequence only: %v (position %d)", id, x, post.Periods[vfC13Client][x], pos)
 			}
 		}
 	}
@@ -604,6 +657,9 @@ func (r *vfC13Run) avoidKnownShapes(o vfC13Op, post *vfC13Model) (drop bool) {
 			sig, _ = vfC13ShapeRoleClip(post, r.w.R.Held, r.w.R.LowPos(), first)
 		}
 		if sig == "" || !kit.Known("C13", sig) {
+			sig, _ = vfC13ShapeStampShortens(post, r.w.R.Held, r.w.R.LowPos())
+		}
+		if sig == "" || !kit.Known("C13", sig) {
 			sig, _ = vfC13ShapeRegainNoHistory(post, r.w.R.Held, r.w.R.LowPos(), first)
 		}
 		if sig == "" || !kit.Known("C13", sig) {
@@ -671,6 +727,7 @@ var vfC13Reproductions = []struct{ Sig, Script string }{
 	{vfC13SigDeletedRole, "open defaultCollection=true; role r1 chans=[C]; user u chans=[] roles=[r1]; put d5 chans=[C]; pull limits=[0]; put d5 chans=[C]; delrole r1; pull limits=[0]"},
 	{vfC13SigRecreatedRole, "open defaultCollection=true; user u chans=[B] roles=[r1]; put d1 chans=[] access([role:r1],[C]); put d5 chans=[C]; put d2 chans=[B]; pull limits=[0]; role r1 chans=[]; pull limits=[0]"},
 	{vfC13SigRoleClip, "open defaultCollection=true; role r2 chans=[B]; user u chans=[] roles=[r2]; put d5 chans=[B]; pull limits=[0]; role r2 chans=[]; put d3 chans=[] role([u],[role:r2]); user u roles=[]; del d5; pull limits=[0]"},
+	{vfC13SigStampShortens, "open defaultCollection=true; user u chans=[]; put d5 chans=[C] access([u],[B C]); put d2 chans=[B]; pull limits=[0]; del d2; user u chans=[B C]; del d5; user u chans=[]; pull limits=[0]"},
 	{vfC13SigRegainNoHistory, "open defaultCollection=true; user u chans=[A]; put d2 chans=[A]; pull limits=[0]; user u chans=[]; put d2 chans=[] access([u],[A]); user u roles=[r1]; del d2; pull limits=[0]"},
 	{vfC13SigRecreatedHistory, "open defaultCollection=false; role r1 chans=[B]; user u chans=[] roles=[r1]; put d2 chans=[B]; pull limits=[0]; delrole r1; role r1 chans=[]; pull limits=[0]"},
 }
